@@ -12,6 +12,7 @@ package main
 
 import (
 	"bytes"
+	"context"
 	"errors"
 	"fmt"
 	"math/rand/v2"
@@ -316,6 +317,72 @@ func faultyMemberReads(run *evid.Run, idx int) {
 	}
 }
 
+var bg = context.Background()
+
+// faultyReader delivers data and then reports err: together with the last bytes, on the read after
+// them, or earlier.
+type faultyReader struct {
+	data     []byte
+	failAt   int  // number of bytes delivered before the error
+	withData bool // the error accompanies the last delivered bytes instead of following them
+	err      error
+	pos      int
+}
+
+func (r *faultyReader) Read(p []byte) (int, error) {
+	if r.pos >= r.failAt {
+		return 0, r.err
+	}
+	n := copy(p, r.data[r.pos:r.failAt])
+	if n > 3 {
+		n = 3 // small reads, so that the failure point is not always the first read
+	}
+	r.pos += n
+	if r.pos >= r.failAt && r.withData {
+		return n, r.err
+	}
+	return n, nil
+}
+
+// faultySourcePush: PushBlob through the unifier from a source reader that fails (at the start,
+// midway, exactly at the end of the content). Whatever PushBlob answers, equal members stay equal,
+// and success is reported only if both have the blob.
+func faultySourcePush(run *evid.Run, idx int) {
+	rng := run.Rand(154, uint64(idx))
+	m0, m1 := ocimem.New(), ocimem.New()
+	pol := ociunify.ReadPolicy(idx % 2)
+	u := ociunify.New(m0, m1, &ociunify.Options{ReadPolicy: pol})
+	content := []byte(fmt.Sprintf("content pushed from a failing source %d %s", idx, strings.Repeat("x", rng.IntN(40))))
+	failAt := []int{len(content), len(content), 0, len(content) / 2, len(content) - 1}[idx%5]
+	fr := &faultyReader{data: content, failAt: failAt, withData: (idx/5)%2 == 0 && failAt > 0, err: errors.New("source: unexpected EOF from upstream")}
+	desc := ociregistry.Descriptor{MediaType: "application/octet-stream", Digest: ociregistry.Digest(model.Digest(content)), Size: int64(len(content))}
+	var perr error
+	run.Eval(1)
+	w := map[string]any{"content_len": len(content), "source_fails_after": failAt, "error_with_last_bytes": fr.withData, "policy": idx % 2}
+	if !run.Case("faulty-source/total", w, func() { _, perr = u.PushBlob(bg, "r/faulty", desc, fr) }) {
+		return
+	}
+	_, e0 := m0.ResolveBlob(bg, "r/faulty", desc.Digest)
+	_, e1 := m1.ResolveBlob(bg, "r/faulty", desc.Digest)
+	where := "midway"
+	switch failAt {
+	case 0:
+		where = "start"
+	case len(content):
+		where = "end"
+	}
+	run.Count("faulty_source_pushes", 1)
+	run.Count("faulty_source_pushes/"+where, 1)
+	run.Distinct(fmt.Sprintf("faulty-source/%s/with-data=%v/push-ok=%v", where, fr.withData, perr == nil))
+	w["push_error"], w["member0_has_blob"], w["member1_has_blob"] = fmt.Sprint(perr), e0 == nil, e1 == nil
+	if (e0 == nil) != (e1 == nil) {
+		run.Violation("faulty-source/members-diverged/"+where, fmt.Sprintf("after PushBlob from a source that failed at the %s (push error: %v) member 0 has the blob: %v, member 1 has it: %v", where, perr, e0 == nil, e1 == nil), w)
+	}
+	if perr == nil && (e0 != nil || e1 != nil) {
+		run.Violation("faulty-source/success-without-both/"+where, "PushBlob reported success although a member lacks the blob", w)
+	}
+}
+
 // ---------- B. replicated writes
 
 var writeKinds = map[string]bool{"PushBlob": true, "PushBlobChunked": true, "PushBlobChunkedResume": true, "MountBlob": true, "PushManifest": true, "DeleteBlob": true, "DeleteManifest": true, "DeleteTag": true}
@@ -478,7 +545,7 @@ func gramOK(op *model.Op) bool {
 
 func main() {
 	run := evid.Start("C15", "exploration")
-	run.SetRule("A: pairs of member states (equal / disjoint repositories / overlapping with conflicting tags / one empty) built by direct histories; every read, resolve, range read and listing over the universe goes through the unifier under both read policies and is compared with the union of the members' direct answers. A2: the same digest-addressed reads with one member (either) answering reads with denied / unauthorized / too-many-requests / unsupported / a transport error while the other is healthy: readable exactly when the healthy member has it, under both policies. B: write histories (all write methods, composite and fine-grained chunked uploads, deletes) through the unifier over two recording members that start equal, a third of them with an injected failure in one member. " +
+	run.SetRule("A: pairs of member states (equal / disjoint repositories / overlapping with conflicting tags / one empty) built by direct histories; every read, resolve, range read and listing over the universe goes through the unifier under both read policies and is compared with the union of the members' direct answers. A2: the same digest-addressed reads with one member (either) answering reads with denied / unauthorized / too-many-requests / unsupported / a transport error while the other is healthy: readable exactly when the healthy member has it, under both policies. A3: PushBlob through the unifier from a source reader that fails at the start, midway or exactly at the end of the content (error with or after the last bytes): equal members stay equal. B: write histories (all write methods, composite and fine-grained chunked uploads, deletes) through the unifier over two recording members that start equal, a third of them with an injected failure in one member. " +
 		"distinct_nontrivial = distinct (method, state shape, how many members have it, outcome class) for A and (method, outcome class, injected?) for B; trivial = reads of things neither member has (counted but the least interesting).")
 	run.Assume("digest-addressed content found in both members is the same content (true by content addressing); manifest media types may differ between members and are not compared in A")
 	run.Assume("after an injected member failure the members may diverge; equality of members is asserted only for fault-free prefixes")
@@ -491,12 +558,16 @@ func main() {
 	for i := 0; i < nf; i++ {
 		faultyMemberReads(run, i)
 	}
+	for i, n := 0, run.N(60, 2000); i < n; i++ {
+		faultySourcePush(run, i)
+	}
 	nw := run.N(400, 8000)
 	for i := 0; i < nw; i++ {
 		writeHistory(run, i)
 	}
 	run.FloorCounter("tag_conflicts", 10)
 	run.FloorCounter("faulty_member_reads_healthy_has_it", 100)
+	run.FloorCounter("faulty_source_pushes/end", 10)
 	run.FloorCounter("tag_agreements_between_different_members", 10)
 	run.FloorCounter("union_listings", 100)
 	run.FloorCounter("writes_checked", 1000)
